@@ -626,6 +626,15 @@ bool SimpSMTSolver::eliminateVar(Var v)
         mkElimClause(elimclauses, ~mkLit(v));
     }
 
+    // Remember the variables the stored clauses talk about (see isNeededForModelExtension)
+    for (CRef cr : (pos.size() > neg.size() ? neg : pos)) {
+        Clause const & c = ca[cr];
+        for (unsigned i = 0; i < c.size(); i++) {
+            in_elimclauses.growTo(var(c[i]) + 1, (char)false);
+            in_elimclauses[var(c[i])] = (char)true;
+        }
+    }
+
     for (int i = 0; i < cls.size(); i++)
         removeClause(cls[i]);
 
